@@ -2,6 +2,6 @@
 locks of every kind, layouts, batch sizes, key-only, cold/warm cache, moved snapshot timestamps and mid-scan splits."""
 from checks.txn_common import run_txn_check
 def run(tier, seed, replay=None):
-    return run_txn_check("C05", [("c05", 150, 12)], tier, seed, replay,
+    return run_txn_check("C05", [("c05", 150, 120)], tier, seed, replay,
                          assumptions=["reads at the max timestamp are recorded but not compared (special rules of the code apply)",
                                       "key-only scans are compared on keys only"])
